@@ -116,6 +116,11 @@ def _check_iso9660_filename(fullname, interchange_level):
 
     # Ensure the filename is valid according to Ecma-119 7.5.
 
+    if fullname in (b'\x00', b'\x01'):
+        # These two single-byte identifiers are how Ecma-119 6.8.2.2 spells the
+        # 'dot' and 'dotdot' records; no other record may use them.
+        raise pycdlibexception.PyCdlibInvalidInput('ISO9660 filenames cannot be the reserved identifiers 0x00 or 0x01')
+
     (name, extension, version) = _split_iso9660_filename(fullname)
 
     # Ecma-119 says that filenames must end with a semicolon-number, but we have
@@ -178,6 +183,11 @@ def _check_iso9660_directory(fullname, interchange_level):
     # character
     if not fullname:
         raise pycdlibexception.PyCdlibInvalidInput('ISO9660 directory names must be at least 1 character long')
+
+    if fullname in (b'\x00', b'\x01'):
+        # These two single-byte identifiers are how Ecma-119 6.8.2.2 spells the
+        # 'dot' and 'dotdot' records; no other record may use them.
+        raise pycdlibexception.PyCdlibInvalidInput('ISO9660 directory names cannot be the reserved identifiers 0x00 or 0x01')
 
     maxlen = float('inf')
     if interchange_level == 1:
